@@ -17,6 +17,11 @@ func vC01(sh *vShape) {
 	vAssertEqBytes(got, want, "C01: encoding is byte-for-byte the manual's layout")
 	vAssert(codec.Size(fc) == len(got), "C01: Size equals number of bytes produced")
 
+	// the encoding is a value of its own: a later use of the same codec leaves it as it was
+	other, _ := codec.Marshal(&Fcall{Type: Tflush, Tag: 1, Message: MessageTflush{Oldtag: 2}})
+	_ = other
+	vAssertEqBytes(got, want, "C01: encoding stays byte-for-byte the manual's layout after the codec was used again")
+
 	var back Fcall
 	err = codec.Unmarshal(got, &back)
 	vAssert(err == nil, "C01: decoding the encoding succeeds")
